@@ -1,5 +1,6 @@
 import FimVerif.Model.Regex
 import FimVerif.Generated.Validators
+import FimVerif.Generated.EntryPoints
 /-!
 Executable model of the validation done on every construction path (C16).
 
@@ -11,7 +12,7 @@ into it (constructor, `_set_fields` on an existing object, `JSONField.update`, `
 Generated (Generated/Validators.lean): every regex, range, anchor mode, size limit and comparison operator.
 -/
 namespace FimVerif.V16
-open FimVerif.Regex FimVerif.Gen.Validators
+open FimVerif.Regex FimVerif.Gen.Validators FimVerif.Gen.EntryPoints
 
 /-! ### Python `int(str)` -/
 
@@ -150,13 +151,20 @@ def checkRange (k : String) (v : Val) : Res Unit :=
       | .ok false => throw "label"
     | _ => pure ()
 
-/-- one iteration of the loop in `Labels._set_fields` -/
+/-- a list holding something that is not a str (`all(isinstance(i, str) for i in v)` fails) -/
+def Val.hasOther : Val → Bool
+  | .list xs => xs.any (fun i => i == Item.other)
+  | _ => false
+
+/-- one iteration of the loop in `Labels._set_fields`: the two assertions (not None; a str or a list of str), the field
+test (`k in self.__dict__`: only instance fields, not methods or class attributes), regex, range, assignment -/
 def setField (forgiving : Bool) (obj : LObj) (k : String) (v : Val) : Res LObj :=
   match v with
   | .none => throw "assertion"
   | .other => throw "assertion"
   | _ =>
-    if labelFields.contains k then
+    if v.hasOther then throw "assertion"
+    else if labelFields.contains k then
       match checkRegex k v with
       | .error e => .error e
       | .ok _ =>
@@ -263,5 +271,78 @@ def jsonObj (cls : String) (dumpsOk : Bool) (len : Nat) : Res Unit :=
   match jsonMax.lookup cls with
   | none => throw "unmodelled"
   | some m => if !dumpsOk then throw "jsondata" else if jsonTooLong len m then throw "jsondata" else pure ()
+
+/-! ### Entry points: which guards count, names of existing elements over histories, derived names
+
+Generated/EntryPoints.lean lists every statement of fim/user, fim/slivers and the decode functions of abc_property_graph that
+stores a value of a validated domain together with the check that dominates it, and every public function that takes such a
+value with the guarded writers its value reaches. `acceptedGuards` says which guard idioms are validators; two idioms the
+translator also recognises are deliberately not accepted: "then:set_property" (the element's cached name written before the
+check; /repo ee3a7fa reversed the order) and "copy:same-field" (Gateway copying `lab.mac` by assignment; /repo 58a3eee made it
+go through `_set_fields`). -/
+
+def acceptedGuards : List String :=
+  ["regex:NAME_REGEX", "size:BOOST_SCRIPT_SIZE",
+   "isinstance:Labels", "isinstance:Tags", "isinstance:MeasurementData", "isinstance:UserData", "isinstance:LayoutData",
+   "regex+range:VALIDATORS", "copy:valid-instance", "free-field", "check:Tags._check", "empty", "constant",
+   "size+loads", "dumps+size", "after:set_property",
+   "setter:name", "setter:labels", "setter:tags", "setter:boot_script", "setter:json", "sliverdict", "sliver:setters-only"]
+
+/-- the guarded writers this file models: set_name → `setName`, set_boot_script → `setBoot`, Labels._set_fields → `setFields`,
+JSONField.update → `enter .update`, Tags.__init__ → `tagsCtor`, JSONData.__init__ → `jsonStr`/`jsonObj` -/
+def modelledWriters : List String :=
+  ["BaseSliver.set_name", "BaseSliver.set_boot_script", "Labels._set_fields", "JSONField.update", "Tags.__init__", "JSONData.__init__"]
+
+def entryOk (e : Entry) : Bool :=
+  e.unguarded.isEmpty
+  && (if e.domain == "any" then e.requires.all (fun r => e.reached.contains r) else e.requires.any (fun r => e.reached.contains r))
+  && e.reached.all (fun r => guardedWriters.contains r)
+
+/-- A model element: the `Name` property in the graph and the name the element object answers with. Every way of rewriting
+the name (rename(), the `name` property, set_property('name', ..), set_properties(name=..)) is `set_name` of the element's
+sliver class followed by the write; a rejected value changes neither. -/
+structure Elem where
+  cls : String
+  name : List Char
+  handle : List Char
+  deriving Repr, DecidableEq
+
+inductive NameEntry where
+  | rename | assign | setProperty | setProperties
+  deriving Repr, DecidableEq
+
+def stepElem (e : Elem) (op : NameEntry × Val) : Elem :=
+  match setName e.cls op.2 with
+  | .error _ => e
+  | .ok s =>
+    match op.1 with
+    | .rename | .assign => { e with name := s, handle := s }
+    | .setProperty | .setProperties => { e with name := s }      -- the element object keeps its cached name
+
+def runElem (e : Elem) (ops : List (NameEntry × Val)) : Elem := ops.foldl stepElem e
+
+/-- a name the entry point derives from the name it was given and checks against another class's NAME_REGEX -/
+def derivedName (parent name : List Char) (d : Derived) : List Char :=
+  (if d.withParent then parent ++ ['-'] else []) ++ name ++ d.suffix.toList
+
+def checkDerived (parent name : List Char) : List Derived → Res Unit
+  | [] => pure ()
+  | d :: t =>
+    match setName d.cls (.str (derivedName parent name d)) with
+    | .error e => .error e
+    | .ok _ => checkDerived parent name t
+
+def derivedFor (kind variant : String) : List Derived :=
+  derived.filter (fun d => d.kind == kind && d.variant == variant)
+
+/-- Node.add_component (catalogue models with interfaces), Topology.add_facility, Topology.add_switch: the element's own
+name check, then every derived name -/
+def createNamed (own kind variant : String) (parent : List Char) (v : Val) : Res (List Char) :=
+  match setName own v with
+  | .error e => .error e
+  | .ok s =>
+    match checkDerived parent s (derivedFor kind variant) with
+    | .error e => .error e
+    | .ok _ => pure s
 
 end FimVerif.V16
